@@ -21,7 +21,7 @@ func observeGtab(which string, data []byte) (obs string) {
 	if which == "gpos" {
 		tp = gtab.TypeGpos
 	}
-	info, err := gtab.VerifC02ReadGtab(bytes.NewReader(data), tp)
+	info, calls, err := gtab.VerifC02ReadGtab(bytes.NewReader(data), tp)
 	if err != nil {
 		return "err"
 	}
@@ -49,7 +49,9 @@ func observeGtab(which string, data []byte) (obs string) {
 		}
 		ll = append(ll, vlib.L(vlib.Int(int(l.Meta.LookupType)), vlib.Int(int(l.Meta.LookupFlags)), vlib.Int(int(l.Meta.MarkFilteringSet)), subs))
 	}
-	return vlib.Str(vlib.L(vlib.Atom("ok"), fl, ll))
+	// calls = how often the subtable reader really ran (the reader decodes every
+	// subtable once; the model predicts the number of distinct calls)
+	return vlib.Str(vlib.L(vlib.Atom("ok"), vlib.Int(calls), fl, ll))
 }
 
 func gtabCaseLine(which string, data []byte) string {
